@@ -391,8 +391,8 @@ mod verif_c01_recursive_step_huge {
             let c_frame = bogus || dict.agrees(fk, fs, f_pre, f_post);
             let g = ghost();
             let c_noalloc = g.seq == 0 && g.zero_elsewhere == 0;
-            let c_outside = bogus || g.outside == 0;
-            let c_c20 = outcome_ok && c_frame && c_outside;
+            let c_outside = g.outside == 0; // not masked by `bogus` (C09 counts the walk-through too)
+            let c_c20 = outcome_ok && c_frame && (bogus || c_outside);
             each! {
                 c_nosuch => ob!("C02", "update_flags", $sz, $shape, "no_success_for_nonexistent_size: no mapping of this size exists, the call must not succeed"),
                 c_hp => ob!("C02", "update_flags", $sz, $shape, "huge_parent_is_reported_not_walked: the page lies inside a larger huge page; the call must answer ParentEntryHugePage (as MappedPageTable does) instead of using the huge page's data frame as a page table"),
@@ -463,8 +463,8 @@ mod verif_c01_recursive_step_huge {
             let f_post = pool.rd(fk, fs);
             let c_frame = f_pre == f_post;
             let c_noalloc = ghost().seq == 0 && ghost().zero_elsewhere == 0;
-            let c_outside = bogus || ghost().outside == 0;
-            let c_c20 = outcome_ok && walk_ok && c_outside;
+            let c_outside = ghost().outside == 0; // not masked by `bogus` (C09 counts the walk-through too)
+            let c_c20 = outcome_ok && walk_ok && (bogus || c_outside);
             each! {
                 c_nosuch => ob!("C02", "translate_page", $sz, $shape, "no_success_for_nonexistent_size: no mapping of this size exists, the call must not succeed"),
                 c_hp => ob!("C02", "translate_page", $sz, $shape, "huge_parent_is_reported_not_walked: the page lies inside a larger huge page; the call must answer ParentEntryHugePage (as MappedPageTable does) instead of using the huge page's data frame as a page table"),
@@ -546,8 +546,8 @@ mod verif_c01_recursive_step_huge {
             let c_frame = bogus || dict.agrees(fk, fs, f_pre, f_post);
             let g = ghost();
             let c_noalloc = g.seq == 0 && g.zero_elsewhere == 0;
-            let c_outside = bogus || g.outside == 0;
-            let c_c20 = outcome_ok && c_frame && c_outside;
+            let c_outside = g.outside == 0; // not masked by `bogus` (C09 counts the walk-through too)
+            let c_c20 = outcome_ok && c_frame && (bogus || c_outside);
             each! {
                 c_na => ob!("C02", $op, $sz, $shape, "level_above_leaf_does_not_exist_is_error: a page of this size has no parent entry at this level"),
                 c_huge_leaf => ob!("C02", $op, $sz, $shape, "reports_parent_entry_huge_page_and_unchanged: the page lies inside a huge page whose leaf is this entry; ParentEntryHugePage and the leaf bit-identical"),
